@@ -59,6 +59,7 @@ VEq(a, b) ==
 RECURSIVE Conf(_, _, _, _, _)
 IsSeqVal(v, o, atU) == v.p = "list" \/ (v.p = "tuple" /\ ~(atU /\ o.tuples))
 IsHint(v, o) == o.tuples /\ v.p = "tuple" /\ Len(v.it) = 2 /\ v.it[1].p = "str"
+Loose(o) == "loose" \in DOMAIN o /\ o.loose
 
 FieldConf(f, v, names, o) ==
   IF HasKey(v, f.name) THEN Conf(f.type, ValAt(v, f.name), names, o, FALSE)
@@ -79,7 +80,10 @@ Conf(t0, v0, names, o, atU) ==
     [] t.k = "string" -> v.p = "str"
     [] t.k = "fixed" -> v.p = "bytes" /\ Len(v.by) = t.size
     [] t.k = "enum" -> v.p = "str" /\ InSeq(t.syms, v.cp)
-    [] t.k = "array" -> IsSeqVal(v, o, atU) /\ \A i \in 1..Len(v.it) : Conf(t.items, v.it[i], names, o, FALSE)
+    [] t.k = "array" -> \/ IsSeqVal(v, o, atU) /\ \A i \in 1..Len(v.it) : Conf(t.items, v.it[i], names, o, FALSE)
+                        \* loose reading (only used to detect ambiguity): Python's Sequence ABC makes b"ab" look like [97, 98]
+                        \/ Loose(o) /\ v.p \in {"bytes", "bytearray"}
+                              /\ (Len(v.by) = 0 \/ Conf(t.items, [p |-> "int", neg |-> FALSE, mag |-> <<1>>], names, o, FALSE))
     [] t.k = "map" -> /\ v.p = "dict"
                       /\ \A i \in 1..Len(v.ks) : v.ks[i].p = "str"
                       /\ \A i \in 1..Len(v.vs) : Conf(t.values, v.vs[i], names, o, FALSE)
@@ -111,8 +115,11 @@ ChooseBranch(brs, v, names, o) ==
   ELSE IF o.tuples /\ v.p = "tuple" THEN [st |-> "unspec", why |-> "tuple"]   \* a tuple that is not a (name, value) pair
   ELSE IF v.p = "datetime" /\ \E i \in 1..Len(brs) : LtOf(Deref(brs[i], names)) = "date"
        THEN [st |-> "unspec", why |-> "datetime-date"]   \* a Python datetime is also a date: which of the two branches it belongs to is not pinned
-  ELSE IF v.p \in {"bytes", "bytearray"} /\ \E i \in 1..Len(brs) : Deref(brs[i], names).k = "array"
-       THEN [st |-> "unspec", why |-> "bytes-array"]     \* Python's Sequence ABC makes b"ab" look like [97, 98] (DESIGN D.2)
+  \* Python's Sequence ABC makes b"ab" look like [97, 98] (DESIGN D.2): where reading bytes as arrays of numbers makes more branches
+  \* fit (at this union or anywhere below it), which branch the value belongs to is not pinned
+  ELSE IF { i \in 1..Len(brs) : Conf(brs[i], v, names, [strict |-> o.strict, tuples |-> o.tuples, loose |-> TRUE], TRUE) }
+          # { i \in 1..Len(brs) : Conf(brs[i], v, names, o, TRUE) }
+       THEN [st |-> "unspec", why |-> "bytes-array"]
   ELSE
      LET conf == { i \in 1..Len(brs) : Conf(brs[i], v, names, o, TRUE) }
          RC == { i \in conf : Deref(brs[i], names).k = "record" }
